@@ -72,38 +72,61 @@ theorem tr_setTaint (w : String) : Tr false (GilVerif.Model.C11.setTaint w) (fun
 theorem tr_fuelHere {t : Bool} : Tr t fuelHere (fun _ => True) := by
   intro s; show GoodT t _ s (Except.ok (s.rest.length + 1, s)); exact ⟨fun _ => rfl, trivial⟩
 
-theorem tr_readSome {t : Bool} (n : Nat) : Tr t (readSome n) (fun got => got.length ≤ n) := by
+/-- all elements are byte values -/
+def Bytes (l : List Nat) : Prop := ∀ b ∈ l, b < 256
+
+theorem bytes_nil : Bytes [] := by intro b hb; cases hb
+theorem bytes_replicate (n : Nat) : Bytes (List.replicate n 0) := by
+  intro b hb; rw [List.mem_replicate] at hb; omega
+theorem bytes_append {a b : List Nat} (ha : Bytes a) (hb : Bytes b) : Bytes (a ++ b) := by
+  intro x hx; rcases List.mem_append.mp hx with h | h
+  · exact ha x h
+  · exact hb x h
+theorem bytes_drop {a : List Nat} (n : Nat) (ha : Bytes a) : Bytes (a.drop n) := fun x hx => ha x (List.mem_of_mem_drop hx)
+theorem bytes_take {a : List Nat} (n : Nat) (ha : Bytes a) : Bytes (a.take n) := fun x hx => ha x (List.mem_of_mem_take hx)
+theorem bytes_getD {a : List Nat} (ha : Bytes a) (k : Nat) : a.getD k 0 < 256 := by
+  rw [List.getD_eq_getElem?_getD]
+  cases h : a[k]? with
+  | none => simp
+  | some v => simp; exact ha v (List.mem_of_getElem? h)
+
+theorem tr_readSome {t : Bool} (n : Nat) : Tr t (readSome n) (fun got => got.length ≤ n ∧ Bytes got) := by
   intro s
   unfold readSome
   split
-  · exact ⟨fun _ => rfl, Nat.zero_le _⟩
-  · refine ⟨fun _ => rfl, ?_⟩
-    show (s.rest.take n).length ≤ n
-    rw [List.length_take]; exact Nat.min_le_left _ _
+  · exact ⟨fun _ => rfl, Nat.zero_le _, bytes_nil⟩
+  · refine ⟨fun _ => rfl, ?_, ?_⟩
+    · show ((s.rest.take n).map UInt8.toNat).length ≤ n
+      rw [List.length_map, List.length_take]; exact Nat.min_le_left _ _
+    · intro b hb
+      have hb' : b ∈ (s.rest.take n).map UInt8.toNat := hb
+      rw [List.mem_map] at hb'
+      obtain ⟨u, _, hu⟩ := hb'
+      rw [← hu]
+      exact UInt8.toNat_lt u
 
-theorem tr_readFixed {t : Bool} (n : Nat) : Tr t (readFixed n) (fun got => got.length = n) := by
+theorem tr_readFixed {t : Bool} (n : Nat) : Tr t (readFixed n) (fun got => got.length = n ∧ Bytes got) := by
   unfold readFixed
   apply tr_bind (tr_readSome n); intro got hg
   split
   · exact tr_ioErr
-  · exact tr_pure (by omega)
+  · exact tr_pure ⟨by omega, hg.2⟩
 
-theorem getD_lt_256 : True := trivial
-
-/-- bytes of the file are below 256: carried as a hypothesis where a value bound is needed; the readers only need
-    non-negativity of the integers they read -/
-theorem tr_readU8 {t : Bool} : Tr t readU8 (fun v => 0 ≤ v) := by
+theorem tr_readU8 {t : Bool} : Tr t readU8 (fun v => 0 ≤ v ∧ v ≤ 255) := by
   unfold readU8
-  apply tr_bind (tr_readFixed 1); intro b _
-  exact tr_pure (Int.natCast_nonneg _)
-theorem tr_readU16 {t : Bool} : Tr t readU16 (fun v => 0 ≤ v) := by
+  apply tr_bind (tr_readFixed 1); intro b hb
+  have := bytes_getD hb.2 0
+  exact tr_pure ⟨Int.natCast_nonneg _, by simp only [Int.ofNat_eq_natCast]; omega⟩
+theorem tr_readU16 {t : Bool} : Tr t readU16 (fun v => 0 ≤ v ∧ v ≤ 65535) := by
   unfold readU16
-  apply tr_bind (tr_readFixed 2); intro b _
-  exact tr_pure (Int.natCast_nonneg _)
-theorem tr_readU32 {t : Bool} : Tr t readU32 (fun v => 0 ≤ v) := by
+  apply tr_bind (tr_readFixed 2); intro b hb
+  have := bytes_getD hb.2 0; have := bytes_getD hb.2 1
+  exact tr_pure ⟨Int.natCast_nonneg _, by simp only [Int.ofNat_eq_natCast]; omega⟩
+theorem tr_readU32 {t : Bool} : Tr t readU32 (fun v => 0 ≤ v ∧ v ≤ 4294967295) := by
   unfold readU32
-  apply tr_bind (tr_readFixed 4); intro b _
-  exact tr_pure (Int.natCast_nonneg _)
+  apply tr_bind (tr_readFixed 4); intro b hb
+  have := bytes_getD hb.2 0; have := bytes_getD hb.2 1; have := bytes_getD hb.2 2; have := bytes_getD hb.2 3
+  exact tr_pure ⟨Int.natCast_nonneg _, by simp only [Int.ofNat_eq_natCast]; omega⟩
 
 theorem tr_seekSet {t : Bool} (off : Int) : Tr t (seekSet off) (fun _ => True) := by
   intro s
@@ -139,7 +162,7 @@ theorem tr_alloc {t : Bool} (n : Int) : Tr t (alloc n) (fun _ => n ≤ allocLimi
   · exact tr_pure (by omega)
 
 theorem tr_readInto {t : Bool} (site : String) (buf : List Nat) (n : Nat) (h : n ≤ buf.length) :
-    Tr t (readInto site buf n) (fun b => b.length = buf.length) := by
+    Tr t (readInto site buf n) (fun b => b.length = buf.length ∧ (Bytes buf → Bytes b)) := by
   unfold readInto
   split
   · omega
@@ -147,7 +170,9 @@ theorem tr_readInto {t : Bool} (site : String) (buf : List Nat) (n : Nat) (h : n
     split
     · exact tr_ioErr
     · apply tr_pure
-      simp [List.length_append, List.length_drop]; omega
+      constructor
+      · simp [List.length_append, List.length_drop]; omega
+      · intro hb; exact bytes_append hg.2 (bytes_drop _ hb)
 
 /-! ### destination -/
 
@@ -395,7 +420,7 @@ theorem tr_tga_rawRows {t : Bool} (i : Tga.Info) (st : Settings) (dimx : Int) (b
   | n + 1, y, row, d, hn, hy, hrow, hd => by
     unfold Tga.rawRows
     apply tr_bind (tr_readInto site row row.length (Nat.le_refl _)); intro row' hrow'
-    have hlen : (row'.length : Int) = i.width * bpp := by rw [hrow']; exact hrow
+    have hlen : (row'.length : Int) = i.width * bpp := by rw [hrow'.1]; exact hrow
     apply tr_bind (tr_sliceRow site row' bpp st.x0 dimx hx0 (by
       have : (st.x0 + dimx) * bpp ≤ i.width * bpp := by
         have : (0 : Int) ≤ bpp := Int.natCast_nonneg _
